@@ -20,6 +20,7 @@ Rules
 from __future__ import annotations
 
 import ast
+import re
 from typing import Callable, Dict, List, Optional, Set, Tuple
 
 from .core import AnalysisError, CheckResult, Finding, ModuleInfo, Repo, func_params, norm, walk_no_nested
@@ -191,9 +192,11 @@ def _typed_pairing(key: ast.AST) -> bool:
     return any(tok in txt for tok in ("type(", "id(", ".__class__"))
 
 
-def check(repo: Repo, res: CheckResult, prop: str) -> None:
+def check(repo: Repo, res: CheckResult, prop: str, only: Optional[Tuple[str, ...]] = None, floors: bool = True) -> None:
     n_a = n_b = 0
     for m in repo.modules.values():
+        if only is not None and not any(o in m.rel for o in only):
+            continue
         def resolve(e, m=m):
             r = repo.resolve_expr_static(m, e)
             return r.name if r.kind == "ext" else None
@@ -261,6 +264,14 @@ def check(repo: Repo, res: CheckResult, prop: str) -> None:
                                     "the earlier", st.lineno))
                     continue
                 valued = [p for p in keys if _annotation_class(anns.get(p)) == "value"]
+                # the key reaches into a model field / linking for the user's default or constant (DefaultValue(False) == DefaultValue(0))
+                ktxt = norm(tgt.slice)
+                for nm in ast.walk(tgt.slice):
+                    if isinstance(nm, ast.Name):
+                        for a in _assigned_values(fn, nm.id):
+                            ktxt += " " + norm(a)
+                if re.search(r"\.(default|constant|placeholder)\b", ktxt):
+                    valued.append(re.search(r"[\w.]*\.(default|constant|placeholder)\b", ktxt).group(0))
                 if valued and not _typed_pairing(tgt.slice) and not any(
                         _typed_pairing(a) for nm in ast.walk(tgt.slice) if isinstance(nm, ast.Name)
                         for a in _assigned_values(fn, nm.id)):
@@ -268,8 +279,8 @@ def check(repo: Repo, res: CheckResult, prop: str) -> None:
                                     f"`{norm(tgt)}`: the key is built from {valued}, user-supplied values compared with == / hash; "
                                     "equal-but-different values (members of two int/str mixed-in enums with equal values, 1 / True) "
                                     "share the entry, the second one is answered with the first one's table", st.lineno))
-    res.count("MEMO.lru-cache-sites", n_a, 1)
-    res.count("MEMO.check-then-insert-sites", n_b, 3)
+    res.count("MEMO.lru-cache-sites", n_a, 1 if floors else 0)
+    res.count("MEMO.check-then-insert-sites", n_b, 3 if floors else 0)
     # fixtures: both shapes must keep matching
     fx = ast.parse(
         "from functools import lru_cache\n"
